@@ -8,7 +8,7 @@
 (*   F.any   : sequence of any-change names  [e, f]  with f in {"v", "x", "*"}             *)
 (*   F.watch : [k |-> "auto"] or [k |-> "set", names |-> <<[e, f], ...>>]                  *)
 (*   F.kw    : record of decorator kwargs (strings) that override the run's arguments      *)
-(* A name is a record [e |-> entity, f |-> "v" | "old" | "x" | "*"].                       *)
+(* A name is a record [e |-> entity, f |-> "v" | "old" | "x" | "oldx" | "*"].               *)
 EXTENDS Naturals, Sequences, FiniteSets
 
 Ent    == {"a", "b"}
@@ -25,6 +25,7 @@ Look(val, nm) ==
   CASE nm.f = "v"   -> IF IsNone(val.cur[nm.e]) THEN NoneS ELSE val.cur[nm.e].v
     [] nm.f = "x"   -> IF IsNone(val.cur[nm.e]) \/ val.cur[nm.e].x = "-" THEN NoneS ELSE val.cur[nm.e].x   \* "-": no such attribute
     [] nm.f = "old" -> IF IsNone(val.old[nm.e]) THEN NoneS ELSE val.old[nm.e].v
+    [] nm.f = "oldx" -> IF IsNone(val.old[nm.e]) \/ val.old[nm.e].x = "-" THEN NoneS ELSE val.old[nm.e].x   \* d.e.old.attr
     [] OTHER        -> NoneS
 
 RECURSIVE EvalE(_, _), NamesE(_)
@@ -45,7 +46,8 @@ HasExpr(F)  == F.expr.k # "none"
 AnyNames(F) == Range(F.any)
 \* names whose change causes an evaluation
 Watch(F)    == IF F.watch.k = "set" THEN Range(F.watch.names) ELSE NamesE(F.expr) \cup AnyNames(F)
-SubscribedEnts(F) == { nm.e : nm \in Watch(F) }
+\* (a four-part name d.e.old.attr is readable in the expression but subscribes to nothing by itself)
+SubscribedEnts(F) == { nm.e : nm \in { w \in Watch(F) : w.f # "oldx" } }
 
 \* a notification n = [e, new, old]
 ValueChanged(n) == n.new.v # n.old.v           \* values compare as strings; Absent has v = "-"
